@@ -12,6 +12,21 @@ Parts 2 and 4: the generated PyDSDL table, by `decide` over the whole table.  Pa
 directories, every package content, every template name.  Part 5: every configuration of built-in names,
 every list of user globals / filters / tests.
 
+Which names of the environment are protected against additional filters / tests / globals, and by what
+(all four mechanisms are in `construct`; theorem 22 `C16_user_additions_never_replace_builtins` covers them together):
+  (a) RESERVED_GLOBAL_NAMESPACES / _NAMES: explicit check in the `additional_globals` loop — raise, any allow flag
+      (`C16_reserved_global_raises`); their values are (re)installed after the loop anyway;
+  (b) names present when the user's items are added — Jinja's default globals, filters and tests; the filters and
+      tests of the language support (`ln.<lang>.<x>` for every supported language, `<x>` for the target) and of the
+      environment itself, all installed BEFORE the user's filters/tests: `_add_to_environment` finds the name —
+      raise unless the allow flag is set (`C16_colliding_filter_or_test_raises`, `C16_colliding_global_raises`);
+  (c) names installed AFTER the user's globals by unconditional assignment — the target language's globals
+      (`globals.update(target_language.get_globals())`), the reserved namespace objects, `now_utc`: the built-in
+      value overwrites the user's, with or without the allow flag; no error, but the built-in is never replaced
+      (`C16_language_and_reserved_globals_installed_last`);
+  (d) names installed after `create()` through `_add_to_environment` — instance tests, the generator's own
+      `filter_*` / `is_*` methods: the installation finds the user's item and raises unless the allow flag is set.
+
 `lookup`, `construct` describe the code with the two repairs proposed by this check; `lookupBeforeFix`,
 `constructBeforeFix` the code before them, with the violated statements refuted by concrete witnesses.
 -/
@@ -463,6 +478,44 @@ theorem C16_colliding_global_raises (cfg : EnvCfg) (ug uf ut : List (Name × Own
   | ok g =>
     have := ((addGlobals_false_ok _ _ _ _ hg).2.2 e he).1
     rw [hw] at this; cases this
+
+/-- T5 (order of installation, globals): the target language's globals (`typename_*`, `valuetoken_*`,
+`ConstructorConvention`, …), the reserved namespaces and `now_utc` are installed AFTER the user's globals were
+taken, by unconditional assignment (`globals.update(get_globals())`, `globals[ns] = …`).  Hence, with or without
+the allow flag, in the repaired and in the unrepaired constructor, a successfully constructed environment holds the
+built-in value at each of these names — a user global of that name is overwritten, never the other way round. -/
+theorem C16_language_and_reserved_globals_installed_last (cfg : EnvCfg) (allow : Bool)
+    (ug uf ut : List (Name × Owner)) (env : Env)
+    (h : construct cfg allow ug uf ut = .ok env ∨ constructBeforeFix cfg allow ug uf ut = .ok env) (n : Name) :
+    (∀ v, lastOf cfg.langGlobals n = some v → cget env.globals n = some v) ∧
+    (lastOf cfg.langGlobals n = none → (n = nowUtc ∨ n ∈ cfg.reservedNs) → cget env.globals n = some .reserved) := by
+  have hg : ∃ g, env.globals = builtinGlobals cfg g := by
+    rcases h with h | h
+    · unfold construct at h
+      cases hg : addGlobals (cfg.reservedNs ++ cfg.reservedNames) allow cfg.jinjaGlobals ug with
+      | error x => simp [hg] at h
+      | ok g => simp only [hg] at h; exact ⟨g, constructRest_globals cfg allow g uf ut env h⟩
+    · unfold constructBeforeFix at h
+      cases hg : addGlobalsBeforeFix (cfg.reservedNs ++ cfg.reservedNames) cfg.jinjaGlobals ug with
+      | error x => simp [hg] at h
+      | ok g => simp only [hg] at h; exact ⟨g, constructRest_globals cfg allow g uf ut env h⟩
+  obtain ⟨g, hg⟩ := hg
+  rw [hg, cget_builtinGlobals]
+  constructor
+  · intro v hv; simp [hv]
+  · intro hnone hres
+    simp only [hnone]
+    rcases hres with h1 | h1
+    · simp [h1]
+    · by_cases h2 : nowUtc = n <;> simp [h1, h2]
+
+/-- Why the order matters (counterfactual, seeded change C16-3): were the language globals installed with
+`setdefault` instead of an overwrite, the user's value would stay in force without any error. -/
+example :
+    let tn := "typename_unsigned_length".toList
+    cget (setAll [(tn, Owner.user 0)] [(tn, Owner.lang)]) tn = some .lang ∧
+    cget (setDefaultAll [(tn, Owner.user 0)] [(tn, Owner.lang)]) tn = some (.user 0) := by
+  decide
 
 def exCfg₁ : EnvCfg where
   jinjaFilters := []
